@@ -1,4 +1,4 @@
-import RlibModel.Model.Fft
+import RlibModel.Lemmas.FftBlocks
 /-!
 Level-A lemmas for C04: everything here holds for EVERY carrier `K` and EVERY `Arith K`
 (no laws), in particular bit-for-bit for IEEE floats with whatever `sin`/`cos` the platform has.
@@ -692,16 +692,19 @@ def fftInvIntoRef (A : Arith K) (v : Array K) (res : List Int) : List Int :=
     let m := Nat.log2 v.size
     addPrefix res (roundPairs A (fftRef A (m - 1) true ((foldHalfRef A A.half m v).extract 0 (v.size >>> 1))))
 
+/-- the single-transform part of `multiply_into` without an object (tables of exactly the transform's size) -/
+def multiplyDirectRef (A : Arith K) (a b : Array Int) (res : List Int) : List Int :=
+  let len := a.size + b.size - 1
+  let n := ceilPow2 2 len
+  let m := Nat.log2 n
+  let buf := fftRef A m false (fillIm A b (fillRe A a (Array.replicate n A.zero)))
+  let buf := foldHalfRef A id m (unpack A n buf)
+  let buf := fftRef A (m - 1) true (buf.extract 0 (n >>> 1))
+  addPrefix res ((roundPairs A buf).take len)
+
+/-- `multiply_into` without an object: the same block recursion (`mulBlocks`) around `multiplyDirectRef`. -/
 def multiplyIntoRef (A : Arith K) (a b : Array Int) (res : List Int) : List Int :=
-  if a.size = 0 ∨ b.size = 0 then res
-  else
-    let len := a.size + b.size - 1
-    let n := ceilPow2 2 len
-    let m := Nat.log2 n
-    let buf := fftRef A m false (fillIm A b (fillRe A a (Array.replicate n A.zero)))
-    let buf := foldHalfRef A id m (unpack A n buf)
-    let buf := fftRef A (m - 1) true (buf.extract 0 (n >>> 1))
-    addPrefix res ((roundPairs A buf).take len)
+  (mulBlocks (fun (_ : Unit) a b res => ((), multiplyDirectRef A a b res)) () a b res).2
 
 theorem fftIntoCore_canon (A : Arith K) (k m : Nat) (s : State K) (h : Canon A k s) (v : Array Int) (res : Array K) :
     ∃ buf, fftIntoCore A s v (2^m) res = (canonState A (max k m) buf, fftIntoRef A v m res) := by
@@ -733,23 +736,37 @@ theorem fftInvIntoCore_canon (A : Arith K) (k m : Nat) (hk : 2 ≤ k) (s : State
       rw [foldHalf_canon A _ m m (by omega) (Nat.le_refl _), fftInternal_canonState]
       exact ⟨_, _, by omega, rfl⟩
 
+theorem multiplyDirect_canon (A : Arith K) (k : Nat) (hk : 2 ≤ k) (s : State K) (h : Canon A k s)
+    (a b : Array Int) (res : List Int) :
+    ∃ k' buf, 2 ≤ k' ∧ multiplyDirect A s a b res = (canonState A k' buf, multiplyDirectRef A a b res) := by
+  unfold multiplyDirect multiplyDirectRef
+  obtain ⟨m, hm1, hm2⟩ := ceilPow2_spec _ 1 (a.size + b.size - 1) rfl
+  rw [Nat.pow_one] at hm2
+  simp only []
+  rw [hm2, Nat.log2_two_pow, two_pow_shiftRight_one m hm1,
+    fftInternal_canon A k m _ (canon_withBuf h _)]
+  simp only [canonState, size_revArr]
+  rw [foldHalf_canon A _ (max k m) m (by omega) (by omega), fftInternal_canonState]
+  exact ⟨_, _, by omega, rfl⟩
+
+/-- `multiply_into` on an object with canonical tables: canonical tables afterwards, and the result is the table-free
+    `multiplyIntoRef` (every block of the recursion starts from an object with canonical tables). -/
 theorem multiplyInto_canon (A : Arith K) (k : Nat) (hk : 2 ≤ k) (s : State K) (h : Canon A k s)
     (a b : Array Int) (res : List Int) :
     ∃ k' buf, 2 ≤ k' ∧ multiplyInto A s a b res = (canonState A k' buf, multiplyIntoRef A a b res) := by
-  unfold multiplyInto multiplyIntoRef
-  by_cases he : a.size = 0 ∨ b.size = 0
-  · rw [if_pos he, if_pos he]
-    exact ⟨k, s.buf, hk, Prod.ext h.eq rfl⟩
-  · rw [if_neg he, if_neg he]
-    obtain ⟨m, hm1, hm2⟩ := ceilPow2_spec _ 1 (a.size + b.size - 1) rfl
-    rw [Nat.pow_one] at hm2
-    simp only []
-    rw [hm2, Nat.log2_two_pow, two_pow_shiftRight_one m hm1,
-      fftInternal_canon A k m _ (canon_withBuf h _)]
-    simp only [canonState, size_revArr]
-    rw [foldHalf_canon A _ (max k m) m (by omega) (by omega), fftInternal_canonState]
-    exact ⟨_, _, by omega, rfl⟩
-
+  have hsim := mulBlocks_sim (fun (s : State K) (_ : Unit) => Reach A s) (multiplyDirect A)
+    (fun (_ : Unit) a b res => ((), multiplyDirectRef A a b res))
+    (fun s _ a b res _ _ hR => by
+      obtain ⟨k, hk, hc⟩ := hR
+      obtain ⟨k', buf, hk', hb⟩ := multiplyDirect_canon A k hk s hc a b res
+      rw [hb]
+      exact ⟨reach_canonState A k' hk' buf, rfl⟩)
+    _ a b rfl s () res ⟨k, hk, h⟩
+  obtain ⟨⟨k', hk', hc'⟩, h2⟩ := hsim
+  refine ⟨k', (multiplyInto A s a b res).1.buf, hk', ?_⟩
+  unfold multiplyIntoRef
+  rw [← h2]
+  exact Prod.ext hc'.eq rfl
 
 /-! #### results of the `?`-functions as functions of the arguments only -/
 
@@ -983,33 +1000,28 @@ theorem reach_after (A : Arith K) (h : List (Op K)) : Reach A (after A h) := by
 
 /-! ### `*_into` accumulates -/
 
-theorem length_addPrefix : ∀ (res vs : List Int), (addPrefix res vs).length = res.length
-  | [], [] => rfl
-  | [], _ :: _ => rfl
-  | _ :: _, [] => rfl
-  | r :: rs, v :: vs => by simp [addPrefix, length_addPrefix rs vs]
+theorem multiplyDirect_eq (A : Arith K) (s : State K) (a b : Array Int) (res : List Int) :
+    multiplyDirect A s a b res
+      = ((multiplyDirect A s a b []).1, addPrefix res ((multiplyDirect A s a b (List.replicate (a.size + b.size - 1) 0)).2)) := by
+  unfold multiplyDirect
+  simp only []
+  rw [addPrefix_zeros _ _ (List.length_take_le _ _)]
 
-theorem addPrefix_nil (res : List Int) : addPrefix res [] = res := by
-  cases res <;> rfl
-
-theorem addPrefix_replicate_zero : ∀ (res : List Int) (n : Nat), addPrefix res (List.replicate n 0) = res
-  | [], 0 => rfl
-  | [], _+1 => rfl
-  | _ :: _, 0 => rfl
-  | r :: rs, n+1 => by
-    rw [List.replicate_succ, addPrefix, addPrefix_replicate_zero rs n, Int.add_zero]
-
-theorem addPrefix_zeros : ∀ (n : Nat) (vs : List Int), vs.length ≤ n →
-    ∀ res, addPrefix res (addPrefix (List.replicate n 0) vs) = addPrefix res vs
-  | n, [], _, res => by rw [addPrefix_nil, addPrefix_nil, addPrefix_replicate_zero]
-  | 0, _ :: _, h, _ => by simp at h
-  | n+1, v :: vs, h, res => by
-    rw [List.replicate_succ, addPrefix]
-    cases res with
-    | nil => rfl
-    | cons r rs =>
-      rw [addPrefix, addPrefix, addPrefix_zeros n vs (by simpa using h) rs]
-      simp
+/-- `multiply_into` adds to the destination a list of at most `|a|+|b|-1` entries that does not depend on the
+    destination (for ANY state and arithmetic, destination of any length). -/
+theorem multiplyInto_value (A : Arith K) (a b : Array Int) (ha : a.size ≠ 0) (hb : b.size ≠ 0) :
+    ∃ V : State K → List Int, (∀ s, (V s).length ≤ a.size + b.size - 1) ∧
+      ∀ s res, (multiplyInto A s a b res).2 = addPrefix res (V s) :=
+  mulBlocks_adds (multiplyDirect A)
+    (fun s a b => (multiplyDirect A s a b (List.replicate (a.size + b.size - 1) 0)).2)
+    (fun s a b => (multiplyDirect A s a b []).1)
+    (multiplyDirect_eq A)
+    (fun s a b => by
+      unfold multiplyDirect
+      simp only []
+      rw [length_addPrefix, List.length_replicate]
+      exact Nat.le_refl _)
+    _ a b rfl ha hb
 
 /-- `multiply_into` adds to the destination exactly what `multiply` returns (for ANY state and arithmetic). -/
 theorem multiplyInto_adds (A : Arith K) (s : State K) (a b : Array Int) (res : List Int) :
@@ -1018,20 +1030,19 @@ theorem multiplyInto_adds (A : Arith K) (s : State K) (a b : Array Int) (res : L
   by_cases he : a.size = 0 ∨ b.size = 0
   · rw [if_pos he]
     unfold multiplyInto
-    rw [if_pos he, addPrefix_nil]
+    rw [mulBlocks_eq, if_pos he, addPrefix_nil]
   · rw [if_neg he]
-    unfold multiplyInto
-    rw [if_neg he, if_neg he]
-    simp only []
-    rw [addPrefix_zeros _ _ (List.length_take_le _ _)]
+    obtain ⟨V, hVlen, hV⟩ := multiplyInto_value A a b (by omega) (by omega)
+    rw [hV s res, hV s (List.replicate _ 0), addPrefix_zeros _ _ (hVlen s)]
+
+theorem multiplyInto_length (A : Arith K) (s : State K) (a b : Array Int) (res : List Int) :
+    (multiplyInto A s a b res).2.length = res.length :=
+  mulBlocks_length (multiplyDirect A)
+    (fun s a b res => by unfold multiplyDirect; simp only []; rw [length_addPrefix]) _ a b rfl s res
 
 theorem multiply_length (A : Arith K) (s : State K) (a b : Array Int) (ha : a.size ≠ 0) (hb : b.size ≠ 0) :
     (multiply A s a b).2.length = a.size + b.size - 1 := by
   unfold multiply
-  rw [if_neg (by omega)]
-  unfold multiplyInto
-  rw [if_neg (by omega)]
-  simp only []
-  rw [length_addPrefix, List.length_replicate]
+  rw [if_neg (by omega), multiplyInto_length, List.length_replicate]
 
 end Rlib.Fft
